@@ -152,10 +152,11 @@ void SCPI_RegSet(scpi_t * context, scpi_reg_name_t name, scpi_reg_val_t val) {
     }
 
     scpi_reg_group_info_t register_group;
+    scpi_reg_class_t register_type;
     SCPI_VERIF_EV(context, SCPI_VE_REGSET_BEGIN, NULL, name, val);
 
     do {
-        scpi_reg_class_t register_type = scpi_reg_details[name].type;
+        register_type = scpi_reg_details[name].type;
         register_group = scpi_reg_group_details[scpi_reg_details[name].group];
 
         scpi_reg_val_t ptrans;
@@ -252,7 +253,8 @@ void SCPI_RegSet(scpi_t * context, scpi_reg_name_t name, scpi_reg_val_t val) {
             case SCPI_REG_CLASS_PTR:
                 return;
         }
-    } while(register_group.parent_reg != SCPI_REG_NONE);
+        /* a condition register hands over to the event register of its own group, parent or not */
+    } while((register_type == SCPI_REG_CLASS_COND) || (register_group.parent_reg != SCPI_REG_NONE));
 }
 
 /**
